@@ -482,7 +482,7 @@ pub fn run(tier: &str, threads: usize, max_wall_s: f64) -> Outcome {
     let quick = tier == "quick";
     let hs = histories(tier);
     let def = default_dims();
-    let dims: Vec<Dims> = if quick { all_dims().into_iter().filter(|d| distance(d, &def) <= 3).collect() } else { all_dims() };
+    let dims: Vec<Dims> = if quick { all_dims().into_iter().filter(|d| distance(d, &def) <= 4).collect() } else { all_dims() };
     let root = crate::hx::scratch_root().join("cfgmc");
     crate::hx::fresh_dir(&root);
     // baselines under the default configuration
